@@ -505,6 +505,7 @@ type State struct {
 	Lmin     int  // bounds of pos-start
 	Lmax     int
 	bytes    map[int]ByteSet // known byte sets by relative coordinate (absent = any)
+	eqc      map[int]int     // coordinates known to hold equal bytes (symmetric)
 	atLen    map[string]bool // facts "E >= atom" valid at the current position
 	atomPos  map[string]bool // facts "atom >= 1"
 	epoch    int             // number of Shift/Skip/Reset so far
@@ -519,6 +520,7 @@ type State struct {
 	shifts   int     // number of Shift/Skip executed on this path (capped)
 	skips    int
 	havoc    bool    // cursor state was invalidated by an opaque call
+	errMsg   string  // message of the error assigned on this path (for obligation keys)
 	errSet   int     // lexer's own err field on this path: 0 unknown, 1 assigned non-nil, 2 known nil
 	loopDisp map[*ssa.BasicBlock]int // lower bound of net displacement since the loop header was last passed
 
@@ -538,6 +540,12 @@ func (s *State) clone() *State {
 	c.bytes = make(map[int]ByteSet, len(s.bytes))
 	for k, v := range s.bytes {
 		c.bytes[k] = v
+	}
+	if len(s.eqc) > 0 {
+		c.eqc = make(map[int]int, len(s.eqc))
+		for k, v := range s.eqc {
+			c.eqc[k] = v
+		}
 	}
 	c.atLen = make(map[string]bool, len(s.atLen))
 	for k, v := range s.atLen {
@@ -620,6 +628,9 @@ func (s *State) refineByte(k int, set ByteSet) {
 			s.setv(v, av)
 		}
 	}
+	if o, ok := s.eqc[k]; ok && !s.byteAt(o).subset(cur) {
+		s.refineByte(o, cur)
+	}
 }
 
 // shift moves the coordinate system by n (the position advanced by n).
@@ -634,6 +645,13 @@ func (s *State) shiftCoords(n int) {
 		}
 	}
 	s.bytes = nb
+	if len(s.eqc) > 0 {
+		ne := make(map[int]int, len(s.eqc))
+		for k, v := range s.eqc {
+			ne[k-n] = v - n
+		}
+		s.eqc = ne
+	}
 	for v, avP := range s.vals {
 		av := *avP
 		if av.k == vByte && av.linked {
@@ -645,6 +663,7 @@ func (s *State) shiftCoords(n int) {
 
 func (s *State) dropByteKnowledge() {
 	s.bytes = map[int]ByteSet{}
+	s.eqc = nil
 	for v, avP := range s.vals {
 		av := *avP
 		if av.k == vByte && av.linked {
@@ -887,6 +906,11 @@ func (s *State) subsumes(o *State) bool {
 			return false
 		}
 	}
+	for k, v := range s.eqc {
+		if ov, ok := o.eqc[k]; !ok || ov != v {
+			return false
+		}
+	}
 	for k := range s.atLen {
 		if !o.atLen[k] {
 			return false
@@ -997,6 +1021,12 @@ func (s *State) joinInto(o *State, wl int) bool {
 			} else {
 				s.bytes[k] = u
 			}
+			changed = true
+		}
+	}
+	for k, v := range s.eqc {
+		if ov, ok := o.eqc[k]; !ok || ov != v {
+			delete(s.eqc, k)
 			changed = true
 		}
 	}
